@@ -34,5 +34,9 @@ def ncases(tier):
 def run_case(ctx, i, rng):
     from vlib.e1 import scripts
     feat = wfgen.Features(retries=rng.random() < 0.4)
+    def script_fn(rng, case):
+        return scripts.random_script(rng, case, kinds=[
+            'hold', 'release', 'trigger', 'set', 'remove', 'pause', 'poll',
+            'kill', 'hold_point', 'reload', 'stop_flow', 'stop_flow'])
     simple_case(ctx, i, rng, PID, feat, plan_class='mixed', hostile=0.5,
-                script_fn=scripts.random_script)
+                script_fn=script_fn)
